@@ -89,12 +89,13 @@ class Client:
         self.errmsg: bytes = b""
 
         self.__capabilities: dict[str, str] = {}
-        self.__respcode_expr = re.compile(rb"(OK|NO|BYE)\s*(.+)?")
+        self.__respcode_expr = re.compile(rb"(OK|NO|BYE)\s*(.+)?", re.DOTALL)
         self.__respcode_arg_expr = re.compile(
             rb'\(((?:[^()"\\]|"(?:[^"\\]|\\.)*")*)\)\s*'
         )
         self.__quoted_expr = re.compile(rb'"((?:[^"\\]|\\.)*)"\s*')
         self.__size_expr = re.compile(rb"\{(\d+)\+?\}")
+        self.__inner_size_expr = re.compile(rb"(?<=[ (])\{(\d+)\+?\}$")
         self.__active_expr = re.compile(rb"ACTIVE", re.IGNORECASE)
 
     def __del__(self):
@@ -140,6 +141,25 @@ class Client:
         self.__dprint(buf)
         return buf
 
+    def __read_raw_line(self) -> bytes:
+        """Read the octets up to the next CRLF from the server."""
+        while True:
+            try:
+                pos = self.__read_buffer.index(CRLF)
+                ret = self.__read_buffer[:pos]
+                self.__read_buffer = self.__read_buffer[pos + len(CRLF) :]
+                return ret
+            except ValueError:
+                pass
+            try:
+                nval = self.sock.recv(self.read_size)
+                self.__dprint(nval)
+                if not len(nval):
+                    raise Error("Connection closed by server")
+                self.__read_buffer += nval
+            except (socket.timeout, ssl.SSLError):
+                raise Error("Failed to read data from the server")
+
     def __read_line(self) -> bytes:
         """Read one line from the server.
 
@@ -155,23 +175,16 @@ class Client:
         :rtype: string
         :return: the read line
         """
-        ret = b""
+        ret = self.__read_raw_line()
         while True:
-            try:
-                pos = self.__read_buffer.index(CRLF)
-                ret = self.__read_buffer[:pos]
-                self.__read_buffer = self.__read_buffer[pos + len(CRLF) :]
+            # A string inside the line can be sent as a literal: the line
+            # stops after the size and goes on behind the announced octets.
+            m = self.__inner_size_expr.search(ret)
+            if m is None or re.sub(rb"\\.", b"", ret[: m.start()]).count(b'"') % 2:
                 break
-            except ValueError:
-                pass
-            try:
-                nval = self.sock.recv(self.read_size)
-                self.__dprint(nval)
-                if not len(nval):
-                    raise Error("Connection closed by server")
-                self.__read_buffer += nval
-            except (socket.timeout, ssl.SSLError):
-                raise Error("Failed to read data from the server")
+            block = self.__read_block(int(m.group(1)))
+            block = block.replace(b"\\", b"\\\\").replace(b'"', b'\\"')
+            ret = ret[: m.start()] + b'"' + block + b'"' + self.__read_raw_line()
 
         if len(ret):
             m = self.__size_expr.match(ret)
